@@ -772,7 +772,12 @@ def normalise_control_flow(fn: ast.FunctionDef, ref_tests: List[str], ref_forms:
                     is_fn_tail = owner is fn and fld == "body"
                     is_loop_tail = isinstance(owner, (ast.For, ast.While)) and fld == "body"
                     elif_chain = len(st.orelse) == 1 and isinstance(st.orelse[0], ast.If)
-                    if want == "guard" and st.orelse and not elif_chain:
+                    if want == "guard" and elif_chain and always_exits(st.body):
+                        # `if a: exit` / `elif b: ...`  ->  `if a: exit` + `if b: ...`
+                        blk[i + 1:i + 1] = st.orelse
+                        st.orelse = []
+                        changed = True
+                    elif want == "guard" and st.orelse and not elif_chain:
                         if always_exits(st.body):
                             blk[i + 1:i + 1] = st.orelse
                             st.orelse = []
@@ -841,7 +846,7 @@ def sink_use_into_branches(fn: ast.FunctionDef, ref_fn: dict, known) -> None:
             if not (isinstance(st, ast.If) and st.orelse and i + 1 < len(blk)):
                 continue
             nxt = blk[i + 1]
-            if not isinstance(nxt, (ast.Assign, ast.Expr, ast.AugAssign)) or _u(nxt).splitlines()[0].strip() in ref_lines:
+            if not isinstance(nxt, (ast.Assign, ast.Expr, ast.AugAssign, ast.If)) or _u(nxt).splitlines()[0].strip() in ref_lines:
                 continue
             leaves = []
 
@@ -925,6 +930,23 @@ def hoist_common_tail(fn: ast.FunctionDef, ref_fn: dict) -> None:
     the current one (tail duplication undone).  Falling off the end of either branch reaches T in both forms."""
     ref_src = ref_fn.get("src", "")
     ref_lines = [l.strip() for l in ref_src.splitlines()]
+    # a `return E` at the end of a branch of the if chain that is followed by the closing `return x`, where the reference has
+    # `x = E` in that place: the branch assigns and falls through to the closing return
+    for owner, fld, blk in blocks_of(fn):
+        if len(blk) >= 2 and isinstance(blk[-1], ast.Return) and isinstance(blk[-1].value, ast.Name) and isinstance(blk[-2], ast.If):
+            x_ = blk[-1].value.id
+
+            def tails(stmts):
+                if not stmts:
+                    return
+                last = stmts[-1]
+                if isinstance(last, ast.Return) and last.value is not None and not isinstance(last.value, ast.Name) and f"{x_} = {_u(last.value)}" in ref_lines:
+                    stmts[-1] = ast.copy_location(ast.Assign(targets=[ast.Name(id=x_, ctx=ast.Store())], value=last.value), last)
+                elif isinstance(last, ast.If):
+                    tails(last.body)
+                    tails(last.orelse)
+            tails(blk[-2].body)
+            tails(blk[-2].orelse)
     for _round in range(8):
         changed = False
         cur_lines = [l.strip() for l in ast.unparse(fn).splitlines()]
@@ -944,7 +966,7 @@ def hoist_common_tail(fn: ast.FunctionDef, ref_fn: dict) -> None:
                         else:
                             leaves.append(node.orelse)
                     collect(st)
-                    if len(leaves) > 2 and all(b_ and isinstance(b_[-1], ast.Return) and b_[-1].value is not None for b_ in leaves):
+                    if len(leaves) >= 2 and all(b_ and isinstance(b_[-1], ast.Return) and b_[-1].value is not None for b_ in leaves):
                         xs = set()
                         for l_ in ref_lines:
                             if l_.startswith("return ") and l_[7:].isidentifier():
